@@ -84,6 +84,26 @@ pub fn gen_files(t: &mut Tape, gates: &Gates) -> Vec<FileCase> {
         };
         v.push(FileCase { text, class });
     }
+    // diagnostics that relate declarations of TWO files (the second label lies in another file than
+    // the first): a declaration of the first file written again in a later one, or a constant global
+    // in one file and a non-constant external of it in another
+    if v.len() >= 2 && v[0].class == "valid" && t.ratio(1, 6) {
+        let first_decl_end = ["END_TYPE\n", "END_FUNCTION\n", "END_FUNCTION_BLOCK\n", "END_PROGRAM\n"].iter().filter_map(|k| v[0].text.find(k).map(|p| p + k.len())).min();
+        if let Some(e) = first_decl_end {
+            let copy = v[0].text[..e].to_string();
+            let k = 1 + t.below(v.len() - 1);
+            if v[k].class == "valid" {
+                v[k].text = if t.flag() { format!("{}{}", v[k].text, copy) } else { format!("{}{}", copy, v[k].text) };
+                v[k].class = "semantic-fault";
+            }
+        }
+    } else if v.len() <= 3 && t.ratio(1, 10) {
+        v.push(FileCase {
+            text: "CONFIGURATION xc\nVAR_GLOBAL CONSTANT\nxg : INT := 1;\nEND_VAR\nRESOURCE xr ON xcpu\nTASK xt(INTERVAL := T#10ms, PRIORITY := 1);\nPROGRAM xi WITH xt : xp;\nEND_RESOURCE\nEND_CONFIGURATION\n".into(),
+            class: "valid",
+        });
+        v.push(FileCase { text: "PROGRAM xp\nVAR_EXTERNAL\nxg : INT;\nEND_VAR\nEND_PROGRAM\n".into(), class: "semantic-fault" });
+    }
     v
 }
 
